@@ -21,7 +21,7 @@ FAMILY = {
     "C08": {"results_read_when_idle", "one_stored_chain_per_started_epoch",
             "tracked_keys_respect_included_excluded", "stored_chain_is_thinned_per_iteration_states",
             "stored_chain_empty_iff_nothing_kept", "transition_infos_for_every_transition",
-            "kernel_states_for_every_transition", "posterior_accessor_returns_exactly_posterior_epochs",
+            "kernel_states_for_every_transition", "posterior_accessor_returns_exactly_posterior_epochs", "stored_results_unchanged_by_reading_and_summarising",
             "generated_quantities_once_per_stored_iteration_from_post_transition_state"},
     "C09": {"starts_from_state_left_by_predecessor", "blocks_only_written_by_their_own_kernel",
             "probe_wrote_expected_tag"},
